@@ -3,6 +3,7 @@ package main
 // Driver: turns abstract events back into calls on a real consumer.
 
 import (
+	"encoding/json"
 	"errors"
 	"fmt"
 	"io"
@@ -684,4 +685,171 @@ func runFault(c *Case, tr *Trace) {
 		runs = []FaultRun{}
 	}
 	tr.Extra = map[string]interface{}{"runs": runs, "total": total, "skipped": ""}
+}
+
+// ---------------------------------------------------------------- kind "reuse" (C17)
+
+func init() { extraKinds["reuse"] = runReuse }
+
+func subEvents(x interface{}) [][]Event {
+	b, _ := json.Marshal(x)
+	var r [][]Event
+	if err := json.Unmarshal(b, &r); err != nil {
+		panic("harness: bad history: " + err.Error())
+	}
+	for i := range r {
+		c := Case{Stream: r[i]}
+		c.normalise()
+		r[i] = c.Stream
+	}
+	return r
+}
+
+func subDocs(x interface{}) [][]byte {
+	b, _ := json.Marshal(x)
+	var r [][]int
+	if err := json.Unmarshal(b, &r); err != nil {
+		panic("harness: bad history: " + err.Error())
+	}
+	out := make([][]byte, len(r))
+	for i := range r {
+		out[i] = intsToBytes(r[i])
+	}
+	return out
+}
+
+// runReuse processes a history of complete documents on ONE instance and
+// then a probe document, and the probe alone on a fresh instance.
+//
+//	component enc:    history/probe are event streams; observation = bytes written for the probe
+//	component parser: history/probe are documents; mode parse (Parse per document) or write (Write + end)
+//	component dec:    one decoder over the concatenated documents; mode bytes or reader
+//
+// Depth accessors are recorded after every completed document.
+func runReuse(c *Case, tr *Trace) {
+	comp := c.Sub["component"].(string)
+	mode, _ := c.Sub["mode"].(string)
+	api := formats[c.Fmt]
+	var deps [][]int
+	idle := []int{}
+	histErr := ""
+	var obsR, obsF interface{}
+	evs := func(e []Event) []Event {
+		if e == nil {
+			return []Event{}
+		}
+		return e
+	}
+	switch comp {
+	case "enc":
+		hist := subEvents(c.Sub["history"])
+		probe := c.Stream
+		write := func(enc encoderI, st []Event) error {
+			for i := range st {
+				if err := replayEvent(enc, &st[i]); err != nil {
+					return err
+				}
+			}
+			return nil
+		}
+		sk := &sink{}
+		enc := api.newVisitor(sk, c.Opts)
+		idle = depthsOf(enc)
+		for _, st := range hist {
+			if err := write(enc, st); err != nil {
+				histErr = err.Error()
+				break
+			}
+			deps = append(deps, depthsOf(enc))
+		}
+		if histErr == "" {
+			before := len(sk.all)
+			errR := write(enc, probe)
+			deps = append(deps, depthsOf(enc))
+			skF := &sink{}
+			encF := api.newVisitor(skF, c.Opts)
+			errF := write(encF, probe)
+			obsR = map[string]interface{}{"b": bytesToInts(sk.all[before:]), "err": errR != nil}
+			obsF = map[string]interface{}{"b": bytesToInts(skF.all), "err": errF != nil}
+		}
+	case "parser":
+		docs := subDocs(c.Sub["history"])
+		probe := intsToBytes(c.Doc)
+		rec := &RefRecorder{}
+		p := api.newParser(rec)
+		idle = depthsOf(p)
+		parse := func(p parserI, d []byte) error {
+			if mode == "parse" {
+				return p.Parse(append([]byte(nil), d...))
+			}
+			if _, err := p.Write(append([]byte(nil), d...)); err != nil {
+				return err
+			}
+			if f, has := p.(interface{ VerifFinalize() error }); has {
+				return f.VerifFinalize()
+			}
+			return nil
+		}
+		for _, d := range docs {
+			if err := parse(p, d); err != nil {
+				histErr = err.Error()
+				break
+			}
+			deps = append(deps, depthsOf(p))
+		}
+		if histErr == "" {
+			mark := len(rec.Events)
+			errR := parse(p, probe)
+			deps = append(deps, depthsOf(p))
+			recF := &RefRecorder{}
+			errF := parse(api.newParser(recF), probe)
+			obsR = map[string]interface{}{"ev": evs(rec.Events[mark:]), "err": errR != nil}
+			obsF = map[string]interface{}{"ev": evs(recF.Events), "err": errF != nil}
+		}
+	case "dec":
+		docs := subDocs(c.Sub["history"])
+		probe := intsToBytes(c.Doc)
+		var all []byte
+		for _, d := range docs {
+			all = append(all, d...)
+		}
+		all = append(all, probe...)
+		mk := func(data []byte, rec *RefRecorder) decoderI {
+			if mode == "bytes" {
+				return api.newBytesDecoder(append([]byte(nil), data...), rec)
+			}
+			return api.newDecoder(&planReader{data: append([]byte(nil), data...), plan: c.Plan, eofWith: c.EOFWith}, c.Buf, rec)
+		}
+		rec := &RefRecorder{}
+		d := mk(all, rec)
+		idle = depthsOf(d)
+		// the unread window differs between decoders by construction: compare parser depths only
+		strip := func(x []int) []int { return x[:len(x)-1] }
+		idle = strip(idle)
+		for range docs {
+			if err := d.Next(); err != nil {
+				histErr = err.Error()
+				break
+			}
+			deps = append(deps, strip(depthsOf(d)))
+		}
+		if histErr == "" {
+			mark := len(rec.Events)
+			errR := d.Next()
+			deps = append(deps, strip(depthsOf(d)))
+			recF := &RefRecorder{}
+			errF := mk(probe, recF).Next()
+			obsR = map[string]interface{}{"ev": evs(rec.Events[mark:]), "err": errR != nil}
+			obsF = map[string]interface{}{"ev": evs(recF.Events), "err": errF != nil}
+		}
+	default:
+		panic("harness: unknown reuse component " + comp)
+	}
+	if deps == nil {
+		deps = [][]int{}
+	}
+	if obsR == nil {
+		obsR, obsF = map[string]interface{}{}, map[string]interface{}{}
+	}
+	tr.Extra = map[string]interface{}{"deps": deps, "idle": idle, "histerr": histErr, "reused": obsR, "fresh": obsF}
 }
